@@ -72,11 +72,15 @@ func (mp *MemProvider) Save(id string) error {
 
 // Count returns the number of sessions.
 func (mp *MemProvider) Count() int {
+	mp.mu.RLock()
+	defer mp.mu.RUnlock()
 	return len(mp.st)
 }
 
 // Close releases all resources.
 func (mp *MemProvider) Close() error {
+	mp.mu.Lock()
+	defer mp.mu.Unlock()
 	mp.st = make(map[string]*Session)
 	return nil
 }
